@@ -63,7 +63,9 @@ Definition shape_ok (p : list tree) (c : list Z) : option bool :=
           && (negb (rate_is rn rd 0) || zl_eqb c g)
           && (negb (rd <=? rn) || zl_eqb c (map inot g)))
   | [A 2; g] | [A 3; g] => olet g := tlist tZ g in
-    Some ((Nat.eqb (length g) (length c)) && forallb (fun y => (y =? 0) || (y =? 1)) c)
+    (* 1/length: a genome of ONE gene is mutated at rate 1, i.e. its gene is flipped with certainty *)
+    Some ((Nat.eqb (length g) (length c)) && forallb (fun y => (y =? 0) || (y =? 1)) c
+          && (negb (Nat.eqb (length g) 1) || zl_eqb c (map (fun x => 1 - x) g)))
   | [A 4; A an; A ad; A dn; A dd; A ek; A en; A ed; g; alpha]
   | [A 5; A an; A ad; A dn; A dd; A ek; A en; A ed; g; alpha]
   | [A 10; A an; A ad; A dn; A dd; A ek; A en; A ed; g; alpha] =>
